@@ -20,6 +20,8 @@
      The model does the by-label matching one label at a time ([extract]) and - unlike
      unify_rows, which leaves the two tails unrelated - it identifies the remaining tails.  That
      difference is deliberate: it is the defect the correspondence exposes (see checks/c03.py).
+     Two rows that end in the same variable but need different fields from it do not unify
+     ([row_tail_is] test; without it the rewriting would not terminate).
    * occurs check: check/src/substitution.rs:380 `union` -> occurs. *)
 From Coq Require Import List Arith Bool PeanoNat.
 Import ListNotations.
@@ -118,6 +120,14 @@ Fixpoint extract (l : nat) (d : ty) (row : ty) : extr :=
   | _ => ExNone
   end.
 
+(* [row_tail_is b r]: the row r ends in the variable b *)
+Fixpoint row_tail_is (b : nat) (r : ty) : bool :=
+  match r with
+  | RCons _ _ r' => row_tail_is b r'
+  | TVar y => b =? y
+  | _ => false
+  end.
+
 (* ---------- unification ---------- *)
 
 (* Worklist unification; solved variables are substituted eagerly into the remaining equations,
@@ -153,7 +163,10 @@ Fixpoint unify (fuel n : nat) (eqs : list (ty * ty)) {struct fuel} : res (subst 
                | ExFound a'' r'' => unify fuel' n ((a, a'') :: (r, r'') :: rest)
                | ExTail b r'' =>
                    (* unify_type.rs:936: the row variable b is extended by the missing field *)
-                   if (b =? n) || occurs b a then Fail
+                   (* the last test is the usual side condition of row unification: two rows that
+                      end in the same variable and need different fields from it have no unifier
+                      (without it the rewriting would go on forever) *)
+                   if (b =? n) || occurs b a || row_tail_is b r then Fail
                    else let u := RCons l a (TVar n) in
                         match unify fuel' (S n) (subst_eqs b u ((r, r'') :: rest)) with
                         | Ok (s, n') => Ok ((b, u) :: s, n')
